@@ -55,6 +55,11 @@ fn last_frame(mgr: &mut Mgr, ibs: usize) -> Result<(f32, f32), Failure> {
 				return Err(Failure::simple("spatial-output-finite", format!("non-finite sample {s}")));
 			}
 		}
+		// (the renderer replaces NaN by silence before the device sees it; the scenes of this check
+		// contain nothing but spatial tracks, so a replaced sample is a spatial track's output)
+		if cb.scrubbed > 0 {
+			return Err(Failure::simple("spatial-output-finite", format!("the spatial track produced NaN for {} sample(s) of a callback of {ibs} frames (the renderer replaced them by silence)", cb.scrubbed)));
+		}
 		last = (cb.out[cb.out.len() - 2], cb.out[cb.out.len() - 1]);
 	}
 	Ok(last)
